@@ -451,4 +451,73 @@ Proof.
   apply (dims_chol D _ Hl (dims_weight s Hd)). rewrite (tie_weight s Hwf Hok). apply wf_weight. exact Hwf.
 Qed.
 
+(* ---------------- the whole state machine: every op sequence ---------------- *)
+(* one op of the model's op language, executed by the GENERATED transformers (the repaired SVD path) *)
+Definition src_step s (o : ls_op (T:=T)) : src_ls (T:=T) * ls_out (T:=T) :=
+  match o with
+  | OpSetEstimateSize k => (src_setEstimateSize N k s, OutNone)
+  | OpSetDataSize n => (fst (src_setDataSize N fill n s), OutFlag (snd (src_setDataSize N fill n s)))
+  | OpSetRow i row y w => (src_set_row i row y w s, OutNone)
+  | OpSetPrecond A b => (src_setPreconditionner2 (mkdm (estimateSize_ s) A) b s, OutNone)
+  | OpSetPrecondA A => (src_setPreconditionner1 N (mkdm (estimateSize_ s) A) s, OutNone)
+  | OpEstimateChol => (fst (src_estimateUsingCholeskyDecomposition N ldlt_solve s), OutVec (snd (src_estimateUsingCholeskyDecomposition N ldlt_solve s)))
+  | OpEstimateSVD => (fst (src_estimateUsingSVD N jacobi_svd s), OutVec (snd (src_estimateUsingSVD N jacobi_svd s)))
+  | OpWeightedEstimate => (fst (src_weightedEstimate N ldlt_solve s), OutVec (snd (src_weightedEstimate N ldlt_solve s)))
+  | OpCovariance var => (fst (src_computeEstimateCovariance N var s), OutMat (dm_rows (snd (src_computeEstimateCovariance N var s))))
+  end.
+
+Fixpoint src_run (ops : list (ls_op (T:=T))) s : src_ls (T:=T) * list (ls_out (T:=T)) :=
+  match ops with
+  | [] => (s, [])
+  | o :: r => let s' := fst (src_step s o) in (fst (src_run r s'), snd (src_step s o) :: snd (src_run r s'))
+  end.
+
+(* the caller passes a preconditioner matrix with estimateSize_ rows (Eigen asserts the shapes; anything else is undefined) *)
+Definition op_dims s (o : ls_op (T:=T)) : Prop :=
+  match o with OpSetPrecond A _ | OpSetPrecondA A => length A = estimateSize_ s | _ => True end.
+Fixpoint run_dims (ops : list (ls_op (T:=T))) s : Prop :=
+  match ops with [] => True | o :: r => op_dims s o /\ run_dims r (fst (src_step s o)) end.
+
+Lemma sim_step (D : LsDictOK N) s o t out : ldlt_dims -> svd_dims -> src_dims s -> ls_wf (abs s) -> op_dims s o ->
+  ls_step N inverse_of_src svd_of_src fill true (abs s) o = Some (t, out) ->
+  abs (fst (src_step s o)) = t /\ snd (src_step s o) = out /\ src_dims (fst (src_step s o)).
+Proof.
+  intros Hl Hsv Hd Hwf Ho Hs. destruct o; cbn [ls_step src_step fst snd op_dims] in *.
+  - inversion Hs; subst. split; [reflexivity|split; [reflexivity|]]. apply dims_setEstimateSize.
+  - pose proof (tie_setDataSize D n s) as E. destruct (ls_set_data_size N fill n (abs s)) as [s' f]. inversion Hs; subst.
+    inversion E; subst. split; [reflexivity|split; [reflexivity|]]. apply dims_setDataSize. exact Hd.
+  - destruct (ls_set_row i row y w (abs s)) as [s'|] eqn:E; [|discriminate]. inversion Hs; subst.
+    assert (Hok : ls_row_ok i row (abs s) = true). { unfold ls_set_row in E. destruct (ls_row_ok i row (abs s)); [reflexivity|discriminate]. }
+    pose proof (tie_set_row i row y w s Hwf Hok) as E2. rewrite E in E2. inversion E2; subst. split; [reflexivity|split; [reflexivity|]]. exact Hd.
+  - inversion Hs; subst. split; [reflexivity|split; [reflexivity|]]. apply dims_setPreconditionner2; [exact Hd|exact Ho|reflexivity].
+  - inversion Hs; subst. split; [reflexivity|split; [reflexivity|]]. apply dims_setPreconditionner1; [exact Hd|exact Ho|reflexivity].
+  - destruct (ls_estimate_chol N inverse_of_src (abs s)) as [[s' x]|] eqn:E; [|discriminate]. inversion Hs; subst.
+    assert (Hok : ls_est_ok (abs s) = true). { unfold ls_estimate_chol in E. destruct (ls_est_ok (abs s)); [reflexivity|discriminate]. }
+    pose proof (tie_chol D s Hl Hd Hwf Hok) as E2. rewrite E in E2. inversion E2; subst. split; [reflexivity|split; [reflexivity|]]. apply (dims_chol D); assumption.
+  - destruct (ls_estimate_svd N svd_of_src (abs s)) as [[s' x]|] eqn:E; [|discriminate]. inversion Hs; subst.
+    assert (Hok : ls_est_ok (abs s) = true). { unfold ls_estimate_svd in E. destruct (ls_est_ok (abs s)); [reflexivity|discriminate]. }
+    pose proof (tie_svd D s Hsv Hd Hwf Hok) as E2. rewrite E in E2. inversion E2; subst. split; [reflexivity|split; [reflexivity|]]. apply (dims_svd D); assumption.
+  - destruct (ls_weighted_estimate N inverse_of_src (abs s)) as [[s' x]|] eqn:E; [|discriminate]. inversion Hs; subst.
+    assert (Hok : ls_est_ok (abs s) = true). { unfold ls_weighted_estimate in E. destruct (ls_est_ok (abs s)); [reflexivity|discriminate]. }
+    pose proof (tie_weighted D s Hl Hd Hwf Hok) as E2. rewrite E in E2. inversion E2; subst. split; [reflexivity|split; [reflexivity|]]. apply (dims_weighted D); assumption.
+  - inversion Hs; subst. rewrite (tie_covariance var s Hd). split; [reflexivity|split; [reflexivity|]]. exact Hd.
+Qed.
+
+(* SIMULATION: wherever the model's run is defined, the run of the generated transformers produces the same outputs and a state
+   whose reading is the model's state *)
+Theorem sim_run (D : LsDictOK N) : ldlt_dims -> svd_dims -> forall ops s t outs, src_dims s -> ls_wf (abs s) -> run_dims ops s ->
+  ls_run N inverse_of_src svd_of_src fill true ops (abs s) = Some (t, outs) ->
+  abs (fst (src_run ops s)) = t /\ snd (src_run ops s) = outs /\ src_dims (fst (src_run ops s)).
+Proof.
+  intros Hl Hsv. induction ops as [|o r IH]; intros s t outs Hd Hwf Hrd Hr.
+  - cbn in *. inversion Hr; subst. split; [reflexivity|split; [reflexivity|exact Hd]].
+  - cbn [ls_run] in Hr. destruct (ls_step N inverse_of_src svd_of_src fill true (abs s) o) as [[s1 o1]|] eqn:E; [|discriminate].
+    destruct (ls_run N inverse_of_src svd_of_src fill true r s1) as [[s2 o2]|] eqn:E2; [|discriminate]. inversion Hr; subst.
+    destruct Hrd as (Ho & Hrd).
+    destruct (sim_step D s o s1 o1 Hl Hsv Hd Hwf Ho E) as (A1 & A2 & A3).
+    assert (Hwf1 : ls_wf s1) by (eapply step_wf; eauto).
+    rewrite <- A1 in E2, Hwf1. destruct (IH _ _ _ A3 Hwf1 Hrd E2) as (B1 & B2 & B3).
+    cbn [src_run fst snd]. rewrite A2, B2. split; [exact B1|split; [reflexivity|exact B3]].
+Qed.
+
 End Tie.
